@@ -286,6 +286,43 @@ def check_interleaved(ctx, src_a, src_b):
         ctx.violation('C18|tifa-raised|%s|%s' % (type(e).__name__, site_of(e)), case, traceback.format_exc()[-600:])
 
 
+def check_given_code_in_a_section(ctx, src):
+    """code handed to tifa_analysis(code=...) while a section of the submission is active: the issues are those of that code, on
+    that code's own lines"""
+    from pedal.core.commands import clear_report, contextualize_report
+    from pedal.core.report import MAIN_REPORT
+    from pedal.source import separate_into_sections, next_section
+    from pedal.tifa import tifa_analysis
+    try:
+        ast.parse(src)
+    except (SyntaxError, ValueError, RecursionError, MemoryError):
+        return
+    if '##### Part' in src:
+        return
+    case = {'given_code_in_a_section': src[:3000]}
+    nlines = src.count('\n') + 1
+    try:
+        clear_report()
+        contextualize_report(src)
+        plain = issue_list(tifa_analysis())
+        clear_report()
+        contextualize_report('first = 0\nprint(first)\n\n\n##### Part 1\nsecond = 1\nprint(second)\n##### Part 2\nthird = 2\nprint(third)\n')
+        separate_into_sections(independent=True)
+        next_section()
+        next_section()
+        got = issue_list(tifa_analysis(code=src))
+    except BaseException as e:
+        ctx.violation('C18|tifa-raised|%s|%s' % (type(e).__name__, site_of(e)), case, traceback.format_exc()[-600:])
+        return
+    ctx.count('analyses_of_given_code_while_a_section_is_active')
+    for label, name, line in got:
+        if line is not None and not (1 <= line <= nlines):
+            ctx.violation('C18|issue-line-outside-source|%s|given-code-while-a-section-is-active' % label, case, 'line %r, the analysed source has %d lines' % (line, nlines))
+            return
+    if got != plain:
+        ctx.violation('C18|given-code-analysed-differently-while-a-section-is-active', case, {'alone': plain[:6], 'in a section': got[:6]})
+
+
 def origin_family(origin):
     return origin.split(':')[0]
 
@@ -361,6 +398,8 @@ def run(ctx):
             check_program(ctx, src, 'sweep:' + tag.split(':')[0], True, tag)
             if previous is not None and (tag.startswith(('mistake', 'intro', 'annotated')) or i % 5 == 0):
                 check_interleaved(ctx, src, previous)
+            if i % 7 == 0:
+                check_given_code_in_a_section(ctx, src)
             previous = src
     # 2. node snippets
     for i, (k, src) in enumerate(sorted(NODE_SNIPPETS.items())):
@@ -387,10 +426,14 @@ def run(ctx):
         check_program(ctx, p.src, 'generated', True)
         if previous is not None and rng.random() < 0.3:
             check_interleaved(ctx, p.src, previous)
+        if rng.random() < 0.1:
+            check_given_code_in_a_section(ctx, p.src)
         previous = p.src
 
 
 def replay(ctx, case):
+    if case.get('given_code_in_a_section'):
+        return check_given_code_in_a_section(ctx, case['given_code_in_a_section'])
     if case.get('interleaved'):
         return check_interleaved(ctx, case['interleaved'][0], case['interleaved'][1])
     src = case.get('src')
